@@ -114,3 +114,7 @@ func ModelAtoi(s string) (int, error) {
 
 // Unsupported marks a path the models do not cover: the engine reports INCONCLUSIVE.
 func Unsupported(why string) { panic("VERIF-UNSUPPORTED: " + why) }
+
+// Native reports whether the harness runs as ordinary Go (replay): the engine answers false. Used to
+// build real artefacts (e.g. signed tokens) at replay where the engine uses a model of the library.
+func Native() bool { return true }
